@@ -13,7 +13,7 @@
    parts (33..126, at most 83 characters, no upper case) and the ASCII codes of dictionary key
    names, which are specification/vocabulary, not configuration. *)
 From Coq Require Import NArith List Bool.
-From BU Require Import Base.Exn Base.Bytes Gen.CoinsConsts.
+From BU Require Import Base.Exn Base.Radix Base.Bytes Gen.CoinsConsts.
 Import ListNotations.
 Open Scope N_scope.
 
@@ -215,6 +215,21 @@ Definition parse_path (s : list N) : res (bool * list N) :=
               else (p <- mapM parse_elem elems ;; Ok (false, p))
   | [] => Ok (false, [])
   end.
+
+(* the printer (Bip32Path.ToStr): decimal indices, "'" after a hardened one, '/' between the
+   elements, the master element first when the path is absolute *)
+Definition show_dec (v : N) : list N :=
+  if v =? 0 then [48] else map (fun d => d + 48) (to_be 10 v).
+Definition show_elem (i : N) : list N :=
+  if is_hardened i then show_dec (i - hardened_bit) ++ [39] else show_dec i.
+Fixpoint join (sep : N) (l : list (list N)) : list N :=
+  match l with
+  | [] => []
+  | [x] => x
+  | x :: t => x ++ sep :: join sep t
+  end.
+Definition show_path (is_abs : bool) (p : list N) : list N :=
+  join 47 ((if is_abs then [path_master_char] else []) ++ map show_elem p).
 
 Definition purpose_of (f : family) : option N :=
   match f with
